@@ -3,10 +3,14 @@
 (* Reference semantics of wordZero's *text* templates (property C16).      *)
 (*                                                                         *)
 (* A template is  tpl = [body |-> Seq(node), ext |-> BOOLEAN,              *)
-(*                       ovr |-> Seq(block node)]                          *)
-(*   body  the (base) template; ext = TRUE: a child template               *)
-(*         `{{extends "base"}}` + the blocks in ovr is loaded after it and *)
-(*         the child is rendered.                                          *)
+(*                       ovr |-> Seq(block node), bn |-> name token]       *)
+(*   body  the (base) template, loaded under the name bn; ext = TRUE: a    *)
+(*         child template `{{extends "<bn>"}}` + the blocks in ovr is      *)
+(*         loaded after it and the child is rendered.                      *)
+(* Names written as quoted strings (block names, the name of the extended  *)
+(* template) are tokens of two classes: identifiers (b1 b2 / t1) and free  *)
+(* text that is not an identifier - hyphen, space, dot, non-ASCII letters  *)
+(* (h1 h2 / t2). A name is only ever compared for equality.                *)
 (* Every node is the record [t, n, a, b] (one JSON shape):                 *)
 (*   t = "lit"   n = literal token (p1 p2 nl br1 br2 x1)                   *)
 (*       "var"   n = global variable name           {{n}}                  *)
@@ -33,7 +37,11 @@
 (*   booleans; e1 the empty string; d1..d4 text that looks like template   *)
 (*   syntax ({{v2}}, {{#if c1}}X{{/if}}, {{/each}}, {{this}} ...); s1 text *)
 (*   with `$1`-like regexp replacement syntax; w1 text with a newline; x1  *)
-(*   text equal to the engine's internal image marker.                     *)
+(*   text equal to the engine's internal image marker; rv1 rv2 rf1 rf2     *)
+(*   text that contains the placeholder {{<name>}} of the variable / item  *)
+(*   field <name> = RefName(token) (otherwise plain).  Whether that name is *)
+(*   supplied where the value is inserted only names the class of the case *)
+(*   (RefClass); the result is the same: the value, verbatim.              *)
 (*                                                                         *)
 (* Render(tpl, d) is the sequence of output tokens                         *)
 (*   "L:<lit>"  literal copied        "V:<val>"  value inserted verbatim   *)
@@ -57,7 +65,17 @@ PlainVals == {"p1", "p2"}
 NumVals   == {"n0", "n1", "n2"}
 BoolVals  == {"bT", "bF"}
 DirVals   == {"d1", "d2", "d3", "d4"}
-AllVals   == PlainVals \cup NumVals \cup BoolVals \cup DirVals \cup {"e1", "s1", "w1", "x1"}
+VRefVals  == {"rv1", "rv2"}          \* text containing the placeholder of a global variable
+FRefVals  == {"rf1", "rf2"}          \* text containing the placeholder of an item field
+RefVals   == VRefVals \cup FRefVals
+AllVals   == PlainVals \cup NumVals \cup BoolVals \cup DirVals \cup RefVals \cup {"e1", "s1", "w1", "x1"}
+
+\* the name whose placeholder a reference value contains
+RefName(v) ==
+  CASE v = "rv1" -> "v1" [] v = "rv2" -> "v2" [] v = "rf1" -> "f1" [] v = "rf2" -> "f2" [] OTHER -> ""
+
+\* quoted names that are not identifiers
+QuotedNames == {"h1", "h2", "t2"}
 
 \* class of a value token, used only to name what a case contains
 ValClass(v) ==
@@ -65,6 +83,7 @@ ValClass(v) ==
     [] v \in NumVals   -> "n"
     [] v \in BoolVals  -> "b"
     [] v \in DirVals   -> "d"
+    [] v \in RefVals   -> "r"
     [] v = "e1"        -> "e"
     [] v = "s1"        -> "s"
     [] v = "w1"        -> "w"
@@ -164,9 +183,20 @@ Render(tpl, d) == Norm(RenderRaw(tpl, d))
 Pfx(ls) == IF Len(ls) = 0 THEN "" ELSE IF Len(ls) = 1 THEN "e/" ELSE "ee/"
 PfxC(ls) == IF Len(ls) = 0 THEN "" ELSE "e/"
 
+\* a reference value is classed by whether the name it mentions is supplied in the scope in which
+\* the value is inserted (d = the data, ls = the loop stack at the place of insertion):
+\*   "ref"   a global variable that the data supply
+\*   "fref"  a value field of an enclosing loop item
+\*   "ref0"  a name nobody supplies there (it then is just text in braces)
+RefClass(v, d, ls) ==
+  IF v \in VRefVals THEN (IF HasVar(d, RefName(v)) THEN "ref" ELSE "ref0")
+  ELSE IF FindFld(ls, RefName(v)).k = "v" THEN "fref" ELSE "ref0"
+
 \* non-plain literal and value classes are named without position: one class per kind of text
-SpecialVal(p, via, v) ==
-  IF ValClass(v) = "p" THEN {} ELSE {"val:" \o ValClass(v)}
+SpecialVal(d, ls, v) ==
+  IF ValClass(v) = "p" THEN {}
+  ELSE IF ValClass(v) = "r" THEN {"val:" \o RefClass(v, d, ls)}
+  ELSE {"val:" \o ValClass(v)}
 
 RECURSIVE CSeq(_, _, _, _), CNode(_, _, _, _), CLoop(_, _, _, _, _, _)
 
@@ -195,7 +225,7 @@ CNode(x, d, ls, par) ==
       live == ls = <<>> \/ Inner(ls).item.k # "none"
   IN
   CASE x.t = "lit" -> {p \o "lit"} \cup (IF LitClass(x.n) = "p" THEN {} ELSE {"lit:" \o LitClass(x.n)})
-    [] x.t = "var" -> IF HasVar(d, x.n) THEN {p \o "var"} \cup SpecialVal(p, "var", d.vars[x.n])
+    [] x.t = "var" -> IF HasVar(d, x.n) THEN {p \o "var"} \cup SpecialVal(d, ls, d.vars[x.n])
                       ELSE {p \o "var:missing"}
     [] x.t = "if"  -> {pc \o "if"} \cup (IF live /\ ~CondHolds(x.n, d, ls) THEN {pc \o "if:F"} ELSE {})
                       \cup nest("if") \cup CSeq(x.a, d, ls, "if")
@@ -212,21 +242,23 @@ CNode(x, d, ls, par) ==
             \cup nest("each")
             \cup (IF list = <<>> THEN CSeq(x.a, d, Append(ls, NoItem), "")
                   ELSE CLoop(x.a, list, 1, d, ls, {}))
-    [] x.t = "this" -> {p \o "this"} \cup (IF live THEN SpecialVal(p, "this", Inner(ls).item.v) ELSE {})
+    [] x.t = "this" -> {p \o "this"} \cup (IF live THEN SpecialVal(d, ls, Inner(ls).item.v) ELSE {})
     [] x.t = "idx"   -> {p \o "idx"}
     [] x.t = "first" -> {p \o "first"}
     [] x.t = "last"  -> {p \o "last"}
     [] x.t = "fld" -> IF ~live THEN {p \o "fld"}
                       ELSE LET fv == FindFld(ls, x.n)
-                           IN IF fv.k = "v" THEN {p \o "fld"} \cup SpecialVal(p, "fld", fv.v)
+                           IN IF fv.k = "v" THEN {p \o "fld"} \cup SpecialVal(d, ls, fv.v)
                               ELSE {p \o "fld:missing"}
-    [] x.t = "block" -> {p \o "block"} \cup nest("block") \cup CSeq(x.a, d, ls, "block")
+    [] x.t = "block" -> {p \o "block"} \cup (IF x.n \in QuotedNames THEN {"block:qname"} ELSE {})
+                        \cup nest("block") \cup CSeq(x.a, d, ls, "block")
     [] x.t = "img" -> {p \o "img"}
     [] OTHER -> {"?"}
 
 Classes(tpl, d) ==
   CSeq(Resolve(tpl), d, <<>>, "")
   \cup (IF tpl.ext THEN {"ext"}
+                        \cup (IF tpl.bn \in QuotedNames THEN {"ext:qname"} ELSE {})
                         \cup (IF tpl.ovr # <<>> THEN {"ext:ovr"} ELSE {})
                         \cup (IF \E i \in 1..Len(tpl.body) : tpl.body[i].t = "block" /\ tpl.body[i].n \notin OvrNames(tpl)
                               THEN {"ext:default"} ELSE {})
